@@ -24,6 +24,7 @@ CONSTANTS
   SplitOnlyAtEnqueue = FALSE
   DropOnClose = TRUE
   WriteErrorEndsReader = FALSE
+  AckOvertakes = FALSE
   ForwardInitWin = FALSE
   WithSettings = TRUE
 INVARIANTS WithinGrant WithinMaxFrame CreditReturned NoEligibleQueued LedgerAgrees PrefixFidelity Conserved HpackInOrder
